@@ -2,6 +2,7 @@ pub mod exec;
 pub mod lex;
 pub mod lexrec;
 pub mod lint;
+pub mod syntax;
 pub mod table;
 
 use crate::Verdict;
@@ -18,6 +19,7 @@ pub fn check(family: &str, rec: &J) -> Verdict {
         "determ" => HELPER.with(|h| exec::check_determ(rec, &mut h.borrow_mut())),
         "table" => table::check(rec),
         "lex" => lex::check_lex(rec),
+        "syntax" => syntax::check(rec),
         "fold" => lint::check_fold(rec),
         "lint" => lint::check_lint(rec),
         "visit" => lint::check_visit(rec),
